@@ -71,7 +71,8 @@ type leaf struct {
 	calls    int
 }
 
-var errs = []error{nil, errors.New("error-1"), errors.New("error-2"), errors.New("error-3")}
+// error-3 is what writing to a closed file returns
+var errs = []error{nil, errors.New("error-1"), errors.New("error-2"), &os.PathError{Op: "write", Path: "/var/log/app.log", Err: os.ErrClosed}}
 
 func (l *leaf) res(p []byte) (int, error) {
 	o := 0
